@@ -13,7 +13,7 @@
      wrong-constant        a description does not carry the constant the lookup of that phrase found
      descriptions-differ   two evaluations of the same query describe different constants
      order                 (drift) the descriptions are not in the specification's evaluation order     *)
-EXTENDS Eval, Json, IOUtils, TLCExt
+EXTENDS Eval, Parser, Json, IOUtils, TLCExt
 Rec == ndJsonDeserialize(IOEnv.TRACE)
 NQ == CHOOSE n \in 0..100000 : ToString(n) = IOEnv.NQUERIES
 RECURSIVE JoinStr(_, _)
@@ -27,9 +27,15 @@ PhrasesOf(s, toks, a) ==
     [] a.t = "cast" -> PhrasesOf(s, toks, a.l)
     [] a.t = "call" -> PhrasesOfArgs(s, toks, a.args, 1)
     [] OTHER -> <<>>
+\* which phrases: from the documented grammar; in which order: from the tree walk of the evaluator (Parser.LookupOrder)
 Expected(src) == LET toks == Lex(src)
-                     g == Grammar(toks) IN
-                 IF g.ok /\ Len(g.asts) = 1 THEN [ok |-> TRUE, ps |-> PhrasesOf(src, toks, g.asts[1])] ELSE [ok |-> FALSE, ps |-> <<>>]
+                     g == Grammar(toks)
+                     sib == NodesOf(ParseRoot(TokKinds(toks)).sib)
+                     rs == IF Len(sib) = 1 THEN LookupOrder(sib[1]) ELSE <<>> IN
+                 IF g.ok /\ Len(g.asts) = 1
+                 THEN [ok |-> TRUE, ps |-> PhrasesOf(src, toks, g.asts[1]),
+                       ordered |-> [i \in 1..Len(rs) |-> JoinStr(SubSeq(src, toks[rs[i][1]].a, toks[rs[i][2] - 1].b - 1), 1)]]
+                 ELSE [ok |-> FALSE, ps |-> <<>>, ordered |-> <<>>]
 Bag(s) == [x \in {s[i] : i \in 1..Len(s)} |-> Cardinality({i \in 1..Len(s) : s[i] = x})]
 Firsts(ps) == [i \in 1..Len(ps) |-> ps[i][1]]
 AllOk(res) == \A i \in 1..Len(res) : res[i].k = "val"
@@ -44,7 +50,7 @@ Check(r, ans, dsc) ==
       p3 == IF r.describe /\ e.ok /\ AllOk(r.res) /\ Bag(Firsts(r.descs)) # Bag(e.ps) THEN <<"descriptions-missing">> ELSE <<>>
       p4 == IF r.describe /\ Len(r.lookups) = Len(r.descs) /\ AllOk(r.res) /\ r.lookups # r.descs THEN <<"wrong-constant">> ELSE <<>>
       p5 == IF r.describe /\ dsc.set /\ dsc.descs # r.descs THEN <<"descriptions-differ">> ELSE <<>>
-      p6 == IF r.describe /\ e.ok /\ AllOk(r.res) /\ Bag(Firsts(r.descs)) = Bag(e.ps) /\ Firsts(r.descs) # e.ps THEN <<"order">> ELSE <<>> IN
+      p6 == IF r.describe /\ e.ok /\ AllOk(r.res) /\ Bag(Firsts(r.descs)) = Bag(e.ps) /\ Firsts(r.descs) # e.ordered THEN <<"order">> ELSE <<>> IN
   p0 \o p1 \o p2 \o p3 \o p4 \o p5 \o p6
 Next == /\ l <= Len(Rec) /\ l' = l + 1
         /\ LET r == Rec[l]
